@@ -62,8 +62,15 @@ SER_OPTS: Dict[str, dict] = {
 }
 
 
+# serialization-side features of the C04 value space (skip / none_as_undefined); relational oracles only
+SK = Obj("dataclass", "SK", (Fld("a", P.INT), Fld("b", Opt(P.INT), has_default=True, default=None, none_as_undefined=True), Fld("c", P.STR, has_default=True, default="d", skip_ser_default=True), Fld("xs", Coll("list", P.INT), factory="list", skip_ser_if_falsy=True)))
+SKH = Obj("dataclass", "SKH", (Fld("sk", SK), Fld("sks", Coll("list", SK), factory="list"), Fld("t", Tup((P.INT, SK)), has_default=True, default=None)))
+SER_EXTRA_OBJS = (SK,)
+SER_EXTRA_TYPES: List[Any] = [SK, Coll("list", SK), Mapp(P.STR, SK), Opt(SK)]
+
+
 def pool_for(tier: str) -> List[Any]:
-    return P.type_pool(tier) + EXTRA_TYPES + EXT_TYPES
+    return P.type_pool(tier) + EXTRA_TYPES + EXT_TYPES + SER_EXTRA_TYPES
 
 
 def has_any(td, realm) -> bool:
@@ -178,7 +185,7 @@ def data_for(td, tier, rng, aliaser=None) -> List[Any]:
 
 
 def run(report, tier: str, seed: int):
-    realm = new_realm("opt", EXTRA_OBJS)
+    realm = new_realm("opt", EXTRA_OBJS + SER_EXTRA_OBJS)
     try:
         run_deser_no_copy(report, tier, seed, realm)
         run_override_ctor(report, tier, seed, realm)
@@ -620,16 +627,20 @@ def run_ser_options(report, tier, seed, realm):
 
     rng = random.Random(seed + 4)
     pool = pool_for(tier)
-    log = report.driver("ser_no_copy_check_type", bound=f"{len(pool)} type descriptions x option sets {list(SER_OPTS)} x the reference images of all accepted data of the datum pools x {{no_copy True / False, check_type False / True}}")
+    log = report.driver("ser_no_copy_check_type", bound=f"({len(pool)} type descriptions + the hand-written types of ser_pass_through: UUID / date / tuple / dataclass / enum / Any / dynamic conversions) x option sets {list(SER_OPTS)} x the reference images of all accepted data of the datum pools x {{no_copy True / False, check_type False / True}}")
     log.rule("case = (type, option set, value): serialize with no_copy=True, with no_copy=False and with check_type=True; distinct by the triple; non-trivial when the value is a container / object")
+    targets: List[Any] = []
     for td in pool:
         tp = _realize(report, td, realm)
-        if tp is None:
-            continue
-        values = values_of(td, realm, tier, rng)
-        for optname, kw in SER_OPTS.items():
-            if optname != "default" and not has_obj(td, realm):
+        if tp is not None:
+            targets.append((short(td), tp, values_of(td, realm, tier, rng), has_any(td, realm), has_obj(td, realm), {}))
+    for h in hand_types(realm):
+        targets.append((h[0], h[1], h[2], h[3], True, h[4] if len(h) > 4 else {}))
+    for tname, tp, values, anyish, objish, extra_kw in targets:
+        for optname, kw0 in SER_OPTS.items():
+            if optname != "default" and not objish:
                 continue
+            kw = {**kw0, **extra_kw}
             try:
                 m_t = serialization_method(tp, no_copy=True, **kw)
                 m_f = serialization_method(tp, no_copy=False, **kw)
@@ -641,13 +652,13 @@ def run_ser_options(report, tier, seed, realm):
             for v in values:
                 before = copy.deepcopy(v)
                 nontrivial = isinstance(v, (list, dict, tuple, set, frozenset)) or dataclasses.is_dataclass(v)
-                log.case((short(td), optname, repr(v), type(v).__name__), nontrivial, sample={"type": short(td), "options": optname, "value": repr(v)} if nontrivial else None)
+                log.case((tname, optname, repr(v), type(v).__name__), nontrivial, sample={"type": tname, "options": optname, "value": repr(v)} if nontrivial else None)
 
                 def fail(kind, summary, observed=None, expected=None):
                     nonlocal involved
                     if involved is None:
                         involved = sorted(set(_ser_involved(m_t) + _ser_involved(m_f) + _ser_involved(m_ct)))
-                    log.fail(f"{kind}:{short(td)}:{optname}:{before!r}", f"{kind}: serialize({short(td)}, {before!r}, {optname}): {summary}", {"type": short(td), "options": optname, "value": repr(before)}, observed=rs(observed, 600), expected=rs(expected, 600), functions_involved=involved)
+                    log.fail(f"{kind}:{tname}:{optname}:{before!r}", f"{kind}: serialize({tname}, {before!r}, {optname}): {summary}", {"type": tname, "options": optname, "value": repr(before)}, observed=rs(observed, 600), expected=rs(expected, 600), functions_involved=involved)
 
                 a = call(m_t, v)
                 if not E.deep_eq(denan(before), denan(v)):
@@ -662,7 +673,7 @@ def run_ser_options(report, tier, seed, realm):
                 elif b[0] == "ok":
                     shared = shared_containers(b[1], v)
                     if shared:
-                        fail("ser-shares-container-no_copy=False" + ("-under-Any" if has_any(td, realm) else ""), f"the result {rs(b[1], 200)} shares the mutable container(s) {rs(shared, 200)} with the value", shared, [])
+                        fail("ser-shares-container-no_copy=False" + ("-under-Any" if anyish else ""), f"the result {rs(b[1], 200)} shares the mutable container(s) {rs(shared, 200)} with the value", shared, [])
                 if a[0] != "ok":
                     continue  # serialization of a well-typed value failing: C04's business
                 for name, m, base in (("check_type=True,no_copy=True", m_ct, a), ("check_type=True,no_copy=False", m_ctf, b)):
@@ -752,8 +763,14 @@ def allowed_untouched(obj, p, type_pred, any_in_type: bool) -> bool:
     return False
 
 
-def _hand_ser_types(realm) -> List[Tuple[str, Any, List[Any], bool]]:
-    """(name, type, values, holds Any) with standard-library types for the `types` sets"""
+def hand_types(realm) -> List[Any]:
+    if not hasattr(realm, "_hand_types"):
+        realm._hand_types = _hand_ser_types(realm)
+    return realm._hand_types
+
+
+def _hand_ser_types(realm) -> List[Any]:
+    """(name, type, values, holds Any[, extra serialize kwargs]) with standard-library types for the `types` sets"""
     A = realm.built["A"]
     Color = realm.built["Color"]
     u1, u2 = uuid.UUID(int=1), uuid.UUID(int=2**100 + 7)
@@ -770,7 +787,83 @@ def _hand_ser_types(realm) -> List[Tuple[str, Any, List[Any], bool]]:
     DCT = dataclasses.make_dataclass("DCT", [("pair", typing.Tuple[int, str]), ("simple", SimpleDC), ("when", typing.Optional[dt.date], dataclasses.field(default=None))])
     DCT.__module__ = realm.name
     setattr(realm.module, "DCT", DCT)
+    # dynamic conversions (field metadata and the `conversion=` argument) on types the options name:
+    # they belong to the `remaining options`, the result must not depend on pass_through either
+    from apischema.conversions import Conversion
+    from apischema.metadata import conversion as conv_md
+
+    def to_hex(u: uuid.UUID) -> str:
+        return u.hex
+
+    def to_ordinal(d: dt.date) -> int:
+        return d.toordinal()
+
+    def a_to_int(a: A) -> int:  # type: ignore
+        return a.a
+
+    def color_name(c: Color) -> str:  # type: ignore
+        return c.name
+
+    def tup_to_str(t: typing.Tuple[int, int]) -> str:
+        return f"{t[0]}x{t[1]}"
+
+    a_to_int.__annotations__ = {"a": A, "return": int}
+    color_name.__annotations__ = {"c": Color, "return": str}
+    Conv = dataclasses.make_dataclass(
+        "Conv",
+        [
+            ("plain", uuid.UUID),
+            ("compact", uuid.UUID, dataclasses.field(metadata=conv_md(serialization=to_hex))),
+            ("day", dt.date, dataclasses.field(default=d1, metadata=conv_md(serialization=to_ordinal))),
+            ("inner", A, dataclasses.field(default_factory=lambda: A(7), metadata=conv_md(serialization=a_to_int))),
+            ("color", Color, dataclasses.field(default=Color.G, metadata=conv_md(serialization=color_name))),
+            ("size", typing.Tuple[int, int], dataclasses.field(default=(1, 2), metadata=conv_md(serialization=tup_to_str))),
+            ("days", typing.List[dt.date], dataclasses.field(default_factory=list)),
+        ],
+    )
+    Conv.__module__ = realm.name
+    setattr(realm.module, "Conv", Conv)
+    src = '''
+import dataclasses, datetime, typing, uuid
+from apischema import serialized
+
+@dataclasses.dataclass
+class WithSerialized:
+    items: typing.List[int]
+    owner: A
+    when: typing.Optional[datetime.date] = None
+
+    @serialized
+    @property
+    def total(self) -> int:
+        return sum(self.items)
+
+    @serialized
+    def doubled(self) -> typing.List[int]:
+        return [2 * i for i in self.items]
+
+    @serialized("ownerTuple")
+    def owner_tuple(self) -> typing.Tuple[int, str]:
+        return (self.owner.a, self.owner.b)
+
+    @serialized
+    def stamp(self) -> typing.Optional[uuid.UUID]:
+        return uuid.UUID(int=len(self.items)) if self.items else None
+'''
+    exec(compile(src, f"<{realm.name}.serialized>", "exec"), realm.module.__dict__)
+    WithSerialized = realm.module.WithSerialized
+    WithSerialized.__module__ = realm.name
+    ws_values = [WithSerialized([], A(1)), WithSerialized([1, 2], A(2, "o"), d1)]
     return [
+        ("WithSerialized", WithSerialized, ws_values, False),
+        ("List[WithSerialized]", typing.List[WithSerialized], [ws_values], False),
+        ("Conv", Conv, [Conv(u1, u1), Conv(u2, u1, d2, A(3, "q"), Color.R, (3, 4), [d1, d2])], False),
+        ("List[Conv]", typing.List[Conv], [[Conv(u1, u2)]], False),
+        ("UUID/conversion=to_hex", uuid.UUID, [u1, u2], False, {"conversion": to_hex}),
+        ("date/conversion=to_ordinal", dt.date, [d1], False, {"conversion": to_ordinal}),
+        ("A/conversion=a_to_int", A, [A(5)], False, {"conversion": a_to_int}),
+        ("Color/conversion=color_name", Color, [Color.R], False, {"conversion": color_name}),
+        ("Tuple[int,int]/conversion=tup_to_str", typing.Tuple[int, int], [(5, 6)], False, {"conversion": tup_to_str}),
         ("List[UUID]", typing.List[uuid.UUID], [[], [u1, u2]], False),
         ("Dict[str,date]", typing.Dict[str, dt.date], [{}, {"a": d1, "b": d2}], False),
         ("Dict[UUID,int]", typing.Dict[uuid.UUID, int], [{u1: 1}], False),
@@ -801,7 +894,8 @@ def run_ser_pass_through(report, tier, seed, realm):
     pool = pool_for(tier)
     flags = list(itertools.product((False, True), repeat=5))
     typesets: List[Tuple[str, Any]] = [("types=()", ()), ("types=(UUID,)", (uuid.UUID,)), ("types=(UUID,date,A)", None), ("types=predicate", None)]
-    hand = _hand_ser_types(realm)
+    hand = hand_types(realm)
+    hand_names = {h[0] for h in hand}
     A = realm.built["A"]
     typesets[2] = ("types=(UUID,date,A)", (uuid.UUID, dt.date, A))
     typesets[3] = ("types=predicate", lambda t: t in (dt.date, realm.built["Color"]))
@@ -818,7 +912,7 @@ def run_ser_pass_through(report, tier, seed, realm):
             return ts
         return lambda t: t in ts
 
-    targets: List[Tuple[str, Any, List[Any], bool]] = []
+    targets: List[Any] = []
     for td in pool:
         tp = _realize(report, td, realm)
         if tp is None:
@@ -828,23 +922,27 @@ def run_ser_pass_through(report, tier, seed, realm):
         targets.append((short(td), tp, vals[:nvals], has_any(td, realm)))
     targets += hand
     flat_names = {short(td) for td in pool if any_node(td, lambda t: isinstance(t, Obj) and any(f.flatten for f in t.fields), realm)}
-    for tname, tp, vals, anyish in targets:
+    for tname, tp, vals, anyish, *rest in targets:
         if not vals:
             continue
         flat = tname in flat_names
-        for optname, kw in (("default", {}), ("camel", {"aliaser": E.camel}), ("exclude_defaults", {"exclude_defaults": True})):
+        extra_kw = rest[0] if rest else {}
+        names_classes = "name='A'" in tname or "Color" in tname
+        for optname, kw0 in (("default", {}), ("camel", {"aliaser": E.camel}), ("exclude_defaults", {"exclude_defaults": True})):
+            kw = {**kw0, **extra_kw}
+            dkw = dict(kw0)
             if optname != "default" and not any(dataclasses.is_dataclass(v) or isinstance(v, (list, dict, tuple)) for v in vals):
                 continue
             try:
                 base_m = serialization_method(tp, **kw)
             except Exception:
                 continue  # not serializable: C04's findings
-            default = serialization_default(**kw)
+            default = serialization_default(**dkw)
             bases = [call(base_m, v) for v in vals]
             for fl in flags:
                 for tsname, ts in typesets:
-                    if ts and tier == "quick" and sum(fl) not in (0, 1, 5) and not tname in [h[0] for h in hand]:
-                        continue  # quick tier: the pool types meet the type sets with 0 / 1 / 5 flags, the hand types with all
+                    if tier == "quick" and tname not in hand_names and ((ts or optname != "default") and sum(fl) not in (0, 1, 5) or (ts and sum(fl) == 1 and not names_classes)):
+                        continue  # quick tier: the pool types meet the type sets / non-default options with 0 / 1 / 5 flags only; all 32 vectors with default options, and everything for the hand-written types
                     p = PassThroughOptions(any=fl[0], collections=fl[1], dataclasses=fl[2], enums=fl[3], tuple=fl[4], types=ts)
                     pname = "flags=" + ("".join(n for n, f in zip(("A", "C", "D", "E", "T"), fl) if f) or "-")
                     try:
